@@ -16,8 +16,8 @@ TY = "trie/typing.py"
 VA = "trie/validation.py"
 
 
-def V(id, prop, file, old, new, expect="fire", rule=None, props=None, edits=None):
-    d = {"id": id, "prop": prop, "file": file, "old": old, "new": new, "expect": expect, "rule": rule}
+def V(id, prop, file, old, new, expect="fire", rule=None, props=None, edits=None, only=False):
+    d = {"id": id, "prop": prop, "file": file, "old": old, "new": new, "expect": expect, "rule": rule, "only": only}
     if props:
         d["props"] = props
     if edits:
@@ -394,6 +394,6 @@ V("silent-module-logger", "C04", HX, "", "", expect="silent", props=["C04", "C06
   (HX, "class HexaryTrie:", "logger = logging.getLogger(__name__)\n\n\nclass HexaryTrie:"),
   (HX, "        if self.is_pruning:\n            self._ref_count[key] += 1", "        if self.is_pruning:\n            logger.debug('count %r', key)\n            self._ref_count[key] += 1")])
 V("silent-assert-before-write", "C04", HX, "    def _set_db_value(self, key, value):\n        self.db[key] = value", "    def _set_db_value(self, key, value):\n        assert isinstance(key, bytes)\n        self.db[key] = value",
-  expect="silent", props=["C04", "C05", "C06"])
+  expect="silent", props=["C04", "C05", "C06"], only=True)  # (C01 / C03: an assertion the path conditions cannot refute is a raise site for EXC1, by design)
 V("silent-warnings-warn", "C14", SM, "        self._default = default\n", "        self._default = default\n        if default != BLANK_NODE:\n            warnings.warn('non-blank default')\n", expect="silent", props=["C14", "C15"],
   edits=[(SM, "from typing import (", "import warnings\nfrom typing import ("), (SM, "        self._default = default\n", "        self._default = default\n        if default != BLANK_NODE:\n            warnings.warn('non-blank default')\n")])
